@@ -64,10 +64,35 @@ def coq_sources():
             if "/Cases/" not in f and "zz_tmp" not in f]
 
 
-def audit_sources():
-    """no Admitted/Axiom/... anywhere; Variable/Hypothesis only inside Sections"""
+def dep_closure(targets):
+    """.v files the targets depend on (from coq_makefile's .Makefile.d); all sources when unknown"""
+    depf = os.path.join(COQ, ".Makefile.d")
+    if not os.path.exists(depf):
+        return coq_sources()
+    deps = {}
+    for line in open(depf).read().replace("\\\n", " ").split("\n"):
+        if ":" not in line:
+            continue
+        lhs, rhs = line.split(":", 1)
+        vos = [x for x in lhs.split() if x.endswith(".vo")]
+        for vo in vos:
+            deps[vo] = [x for x in rhs.split() if x.endswith(".vo")]
+    seen, todo = set(), list(targets)
+    while todo:
+        t = todo.pop()
+        if t in seen:
+            continue
+        seen.add(t)
+        todo.extend(deps.get(t, []))
+    files = [os.path.join(COQ, t[:-1]) for t in seen if os.path.exists(os.path.join(COQ, t[:-1]))]
+    return files or coq_sources()
+
+
+def audit_sources(targets=None):
+    """no Admitted/Axiom/... in the development the property's theorems depend on;
+    Variable/Hypothesis only inside Sections"""
     problems = []
-    for f in coq_sources():
+    for f in (dep_closure(targets) if targets else coq_sources()):
         src = strip_comments(open(f).read())
         # drop string literals
         src_ns = re.sub(r'"[^"]*"', '""', src)
@@ -140,8 +165,8 @@ def stage_coq(pid, spec, log):
     return rc, out, dt
 
 
-def stage_audit(pid, log):
-    problems = audit_sources()
+def stage_audit(pid, log, targets=None):
+    problems = audit_sources(targets)
     names, leftover = props_theorems(pid)
     if leftover:
         problems.append(f"Props/{pid}.v contains more than Theorem/exact/Print Assumptions: {leftover[:200]!r}")
@@ -209,9 +234,16 @@ def stage_harness(pid, spec, tier, seed, log, extra_env=None):
 def run_coqc_cases(path):
     rc, out, dt = sh(["coqc", "-noglob", "-Q", COQ, "CKB", path], cwd=os.path.dirname(path), timeout=3000)
     bad = {}
-    for m in re.finditer(r'\("HXBAD_(\w+)"%string,\s*\[(.*?)\]\)', out, re.S):
-        idx = [int(x) for x in re.findall(r"(\d+)%N", m.group(2))]
+    for m in re.finditer(r'\("HXBAD_(\w+)"(?:%string)?,\s*\[(.*?)\]\)', out, re.S):
+        idx = [int(x) for x in re.findall(r"(\d+)(?:%N)?", m.group(2))]
         bad[m.group(1)] = idx
+    try:
+        written = len(re.findall(r"^Definition bad_\w+ :=", open(path).read(), re.M))
+    except OSError:
+        written = 0
+    if rc == 0 and len(bad) != written:
+        rc = 3
+        out += f"\n[vcheck] parsed {len(bad)} result groups but the case file defines {written}"
     # cleanup compiled case files
     for ext in (".vo", ".vok", ".vos", ".glob"):
         p = path[:-2] + ext
@@ -294,7 +326,7 @@ def main():
     tr = stage_translate(spec, log)
     tr_fail = [(t, o) for (t, rc, o) in tr if rc != 0]
     rc_coq, out_coq, dt_coq = stage_coq(pid, spec, log)
-    names, discharged, axioms, problems = stage_audit(pid, log)
+    names, discharged, axioms, problems = stage_audit(pid, log, spec["coq_targets"])
     if rc_coq != 0:
         # which theorem / file no longer checks
         m = re.search(r'File "([^"]+)", line (\d+)', out_coq)
